@@ -6,6 +6,7 @@
 
 #include <iostream>
 #include <fstream>
+#include <stdexcept>
 
 #include <stdio.h>
 #include <stdlib.h>
@@ -179,6 +180,11 @@ int main(int argc, char* argv[])
 		return 0;
 	}
 	catch (InputError& error)
+	{
+		std::cerr << error.what() << "\n";
+		return -1;
+	}
+	catch (std::exception& error)
 	{
 		std::cerr << error.what() << "\n";
 		return -1;
